@@ -56,6 +56,27 @@ def _row(res, b, cols):
     return [float(res.at[b, c]) if c in res.columns else None for c in cols]
 
 
+PAIRS = {"rk_ohm": "xk_ohm", "xk_ohm": "rk_ohm", "rk0_ohm": "xk0_ohm", "xk0_ohm": "rk0_ohm"}
+
+
+def _row_diffs(b, cols, ra, rb):
+    """columns of one bus that differ; r/x of an impedance are compared as one complex number (a zero-sequence path blocked
+    with 1e20*baseMVA leaves |x| ~ 1e4 ohm and r as a difference of huge numbers: only |Z| carries 1e-8 accuracy)"""
+    va, vb = dict(zip(cols, ra)), dict(zip(cols, rb))
+    out = []
+    for c in cols:
+        x, y = va[c], vb[c]
+        if _close(x, y):
+            continue
+        p = PAIRS.get(c)
+        if p in va and all(v is not None and v == v and not math.isinf(v) for v in (x, y, va[p], vb[p])):
+            za, zb = complex(x, va[p]), complex(y, vb[p])
+            if abs(za - zb) <= RTOL * max(abs(za), abs(zb)):
+                continue
+        out.append((b, c, x, y))
+    return out
+
+
 def _has_current_source(net, case):
     return case == "max" and len(net.sgen) > 0 and bool(net.sgen.in_service.any())
 
@@ -241,19 +262,14 @@ def _run_case(case):
             continue
         diffs = []
         for b in want:
-            ra, rb = _row(ref, b, ccols), _row(res, b, ccols)
-            for c, x, y in zip(ccols, ra, rb):
-                if not _close(x, y):
-                    diffs.append((b, c, x, y))
+            diffs += _row_diffs(b, ccols, _row(ref, b, ccols), _row(res, b, ccols))
         if diffs:
             # confirm on fresh deep copies (rules out history effects of re-using the net object)
             oc2, res2 = run(cfg, fresh=True)
             diffs = []
             if oc2 == "ok":
                 for b in want:
-                    for c, x, y in zip(ccols, _row(ref, b, ccols), _row(res2, b, ccols)):
-                        if not _close(x, y):
-                            diffs.append((b, c, x, y))
+                    diffs += _row_diffs(b, ccols, _row(ref, b, ccols), _row(res2, b, ccols))
             else:
                 cnt("history_dependent_outcome")
             if not diffs:
